@@ -41,6 +41,18 @@ func inJPEG(c *Ctx, tiff []byte, extra bool) []byte {
 			}
 			b = append(b, s.bytes()...)
 		}
+		// a tenth of the files carry a segment of the largest lengths the 16-bit field can hold (a full-size ICC profile
+		// chunk has 0xFFFF) in front of the Exif segment, with marker-looking pairs and fill bytes in its data
+		if c.Rng.Intn(10) == 0 {
+			n := []int{0xFFFF, 0xFFFE, 0xFFFD}[c.Rng.Intn(3)] - 2
+			p := make([]byte, n)
+			for i := range p {
+				p[i] = []byte{0xFF, 0xDB, 0xD8, 0xD9, 0xE1, 0x00, 0x45, 0x10}[c.Rng.Intn(8)]
+			}
+			copy(p, "ICC_PROFILE\x00\x01\x01")
+			b = append(b, jseg{"app", 0xE2, p}.bytes()...)
+			c.Stat("container.jpeg-max-length-segment")
+		}
 	}
 	b = append(b, jseg{"exif", 0xE1, append([]byte("Exif\x00\x00"), tiff...)}.bytes()...)
 	if extra && c.Rng.Intn(2) == 0 {
